@@ -19,6 +19,9 @@ def bimap_lines(rng, n):
     return lines
 
 
+DESCRIBE_MS = "/temporal.server.api.adminservice.v1.AdminService/DescribeMutableState"
+
+
 def check(tier, seed):
     ck = V.Check(PROP, tier, seed)
     ck.trusted = V.std_trusted() + ["schema translator and descriptor oracle as for C12; blob re-encoding is assumed semantically neutral (protobuf-go round trip; decoded contents are compared)"]
@@ -84,11 +87,17 @@ def check(tier, seed):
             "SETUP transport=tcp acl=none nsmap=a:b,b:c", "CALL side=remote method=%s ns=c" % DESCRIBE_NS, "CALL side=remote method=%s ns=b" % DESCRIBE_NS,
             "CALL side=local method=%s ns=a" % DESCRIBE_NS,
             "SETUP transport=tcp acl=none nsmap=a:x,b:x", "SETUP transport=tcp acl=none nsmap=a:x,a:y",
-            "SETUP transport=mux acl=none nsmap=loc:rem", "CALL side=remote method=%s ns=rem" % DESCRIBE_NS]
+            "SETUP transport=mux acl=none nsmap=loc:rem", "CALL side=remote method=%s ns=rem" % DESCRIBE_NS,
+            # search-attribute keys in responses: the inbound server answers the remote side (local -> remote names), the outbound server the local side
+            "SETUP transport=tcp acl=none nsmap=- samap=LocalSA:RemoteSA,ChainA:ChainB,ChainB:ChainC",
+            "CALL side=remote method=%s ns=x sakeys=LocalSA+Other" % DESCRIBE_MS, "CALL side=local method=%s ns=x sakeys=RemoteSA+Other" % DESCRIBE_MS,
+            "CALL side=remote method=%s ns=x sakeys=ChainA" % DESCRIBE_MS, "CALL side=local method=%s ns=x sakeys=ChainC" % DESCRIBE_MS]
     e_want = ["SETUP ok", "seen=loc resp=info:rem", "seen=rem resp=info:loc", "seen=loc resp=info:rem", "seen=rem resp=info:loc",
               "seen=unmapped resp=info:unmapped", "seen=rem resp=info:rem",
               "SETUP ok", "seen=b resp=info:c", "seen=a resp=info:b", "seen=b resp=info:a",
-              "SETUP error", "SETUP error", "SETUP ok", "seen=loc resp=info:rem"]
+              "SETUP error", "SETUP error", "SETUP ok", "seen=loc resp=info:rem",
+              "SETUP ok", "resp=sa:Other=value-of-Other,RemoteSA=value-of-LocalSA ", "resp=sa:LocalSA=value-of-RemoteSA,Other=value-of-Other ",
+              "resp=sa:ChainB=value-of-ChainA ", "resp=sa:ChainB=value-of-ChainC "]
     err, e_out = L.run_impl("proxy", E2E, "TestVerifE2E", e_in, "c13e", timeout=900)
     if err:
         ck.obligation("end-to-end direction run", False, err)
